@@ -354,6 +354,34 @@ def c06_worker(job):
                                           dict(desc0, variation='index-dir')))
             else:
                 compare('reference from generateIndex directory', seqs(r), {})
+        # timeout-driven retry of ONE transcript must not change the limits of the others,
+        # for any thread count (the retry state is per dispatch)
+        gathered = [t for t in struct.txs if t in struct.gathered]
+        if len(gathered) >= 2:
+            victim = gathered[0]
+            sets = {}
+            for th in (1, 2):
+                r = gen_ref.run_call_variant(case, tag=f'to{th}', threads=th,
+                                             timeouts=f'wrapper:{victim}@1', **common_kw)
+                out['stats']['timeout_runs'] = out['stats'].get('timeout_runs', 0) + 1
+                if r.status != 'ok':
+                    out['violations'].append((f'run with one injected timeout crashed: {r.status} {r.error}',
+                                              dict(desc0, variation=f'timeout on {victim}, threads={th}')))
+                    continue
+                sets[th] = seqs(r)
+                for w in r.trace:
+                    if w['kind'] == 'wrapper' and w['tx_id'] != victim and w['params'] != [7, 2]:
+                        out['violations'].append((
+                            f'after a timeout-driven retry of {victim} the transcript {w["tx_id"]} was '
+                            f'called with reduced limits {w["params"]} instead of [7, 2] (threads={th})',
+                            dict(desc0, variation=f'timeout on {victim}, threads={th}')))
+                        break
+            if len(sets) == 2 and sets[1] != sets[2]:
+                out['violations'].append((
+                    f'with the same injected timeout on {victim}, --threads 1 and --threads 2 give '
+                    f'different peptide sets (only in threads=2: {sorted(sets[2] - sets[1])[:3]}, only in '
+                    f'threads=1: {sorted(sets[1] - sets[2])[:3]})',
+                    dict(desc0, variation=f'timeout on {victim}')))
         # hash seeds (subprocess)
         for hs in ([1] if tier == 'quick' else [1, 2, 3]):
             if rng.random() < (0.34 if tier == 'quick' else 1.0):
